@@ -27,6 +27,9 @@ type evalCase struct {
 	NS     map[string]string `json:"ns,omitempty"`
 	Vars   []varBinding      `json:"vars,omitempty"`
 	Funcs  []funcBinding     `json:"funcs,omitempty"`
+	// a second document: node-set variables marked Doc2 hold nodes of it (positions are unique
+	// within a document only)
+	Events2 []xmodel.Event `json:"events2,omitempty"`
 }
 
 // funcBinding is a user function registered with the query: it ignores its
@@ -45,6 +48,7 @@ type varBinding struct {
 	Str   string   `json:"str,omitempty"`
 	Bool  bool     `json:"bool,omitempty"`
 	Nodes []string `json:"nodes,omitempty"` // node refs, in the order the caller holds them
+	Doc2  bool     `json:"doc2,omitempty"`  // the refs are into the case's second document
 }
 
 func fmtFloat(f float64) string { return strconv.FormatFloat(f, 'g', -1, 64) }
@@ -154,13 +158,21 @@ func (c *evalCase) settings(p *prepared) ([]xsel.ContextApply, *xref.Env, error)
 		case "nodes":
 			var ms []*xmodel.Node
 			ns := xsel.NodeSet{}
+			src := p
+			if b.Doc2 {
+				p2, err := prepareDoc(c.Events2)
+				if err != nil {
+					return nil, nil, fmt.Errorf("second document: %v", err)
+				}
+				src = p2
+			}
 			for _, r := range b.Nodes {
-				m := p.doc.Resolve(r)
+				m := src.doc.Resolve(r)
 				if m == nil {
 					return nil, nil, fmt.Errorf("variable %s: node %s not in document", b.Local, r)
 				}
 				ms = append(ms, m)
-				ns = append(ns, p.loc.ToCur[m])
+				ns = append(ns, src.loc.ToCur[m])
 			}
 			env.Vars[name] = xref.NodeSet(xref.Sort(ms))
 			set = append(set, xsel.WithVariableNS(b.Space, b.Local, ns))
